@@ -7,10 +7,12 @@
    gen_names and gen_prefix_status are what the tree's own resolver returned
    for every name and for every prefix ++ name.  [q_ref] is the faithful model
    of query_unit_internal over that table in the default context.
-   known_family / known_sing_plur / known_unreachable are the entries listed
-   in known_findings.d/C11.json; the theorems hold for all other entries, and
-   for those too once the table is repaired (the lists are only excuses, the
-   statements do not claim that the listed entries fail). *)
+   known_unreachable holds the entries of the one table defect that is still
+   open in known_findings.d/C11.json (T, link); the theorem holds for all other
+   entries, and for those too once the table is repaired (the list is only an
+   excuse, the statement does not claim that the listed entries fail).  The
+   former excuses for sqdm cbdm dm2 dm3 (fend commit e3398ae) and gal (d57dc01)
+   are gone: those clauses hold without exception. *)
 From FendV Require Import Base.Prelude Units.Defs Units.Algebra Units.Lookup Units.Index
      Units.Legality Units.LookupProofs Units.Table Units.TableProofs.
 From FendV Require Import Units.Generated.UnitTable.
@@ -37,7 +39,7 @@ Print Assumptions C11_model_matches_implementation.
 (* --- coherence ---------------------------------------------------------- *)
 
 Theorem C11_singular_plural_same : forall s p d,
-  In (s, p, d) (t_defs the_tables) -> p <> [] -> mem_str s known_sing_plur = false ->
+  In (s, p, d) (t_defs the_tables) -> p <> [] ->
   exists q1 q2, impl_quantity s = Some q1 /\ impl_quantity p = Some q2 /\ quantity_eqb q1 q2 = true.
 Proof. exact singular_plural_same. Qed.
 Print Assumptions C11_singular_plural_same.
@@ -53,7 +55,6 @@ Print Assumptions C11_short_long_agree.
    dimensioned quantity *)
 Theorem C11_sq_cb_family : forall n x k qx,
   In n table_names -> In (x, k) (family_of n) -> stem_quantity x = Some qx ->
-  mem_str n known_family = false ->
   exists want, quantity_pow qx k = Some want /\ opt_quantity_eqb (impl_quantity n) (Some want) = true.
 Proof. exact sq_cb_family. Qed.
 Print Assumptions C11_sq_cb_family.
@@ -169,9 +170,8 @@ Proof. vm_compute. repeat split. Qed.
 
 (* m2 is a family member with stem m, exponent 2 *)
 Example C11_family_inhabited :
-  In ([109], 2%Z) (family_of [109; 50]) /\ (exists q, stem_quantity [109] = Some q)
-  /\ mem_str [109; 50] known_family = false.
-Proof. vm_compute. split; [left; reflexivity|]. split; [eexists; reflexivity|reflexivity]. Qed.
+  In ([109], 2%Z) (family_of [109; 50]) /\ (exists q, stem_quantity [109] = Some q).
+Proof. vm_compute. split; [left; reflexivity|]. eexists; reflexivity. Qed.
 
 (* kilo ++ meter is a plain, legal pair *)
 Example C11_legal_pair_inhabited :
